@@ -8,8 +8,9 @@
      kind       "container" "list" "leaf" "leaflist" "choice" "case"
      presence   container has a presence statement
      typ        "string" "int8" "empty" for leaf / leaf-list, or the same reached through a
-                typedef: "tstring" "tint8" "tempty"; "boolean" (key leaves of the multi-key
-                path shapes only); "-" otherwise
+                typedef: "tstring" "tint8" "tempty"; path shapes and sampled path schemas (C17)
+                also "boolean" "enum" (enumeration { on, off }) "union" (union { int8, boolean })
+                and their typedefs "tbool" "tenum" "tunion"; "-" otherwise
      key        name of the key leaf of a single-key list ("" for a list with several keys)
      keys       the key statement of a list: the names of its key leaves in the order of the
                 statement (RFC 6020 7.8.2); <<key>> for a single-key list
@@ -70,9 +71,13 @@ AllNames(kids) == IF kids = << >> THEN {} ELSE {kids[1].name} \cup AllNames(kids
 \* through a typedef has the value space of its base.  Type empty has exactly one lexical
 \* value, the empty string (RFC 6020 9.11: "no value"): as a path token it may follow the
 \* leaf name, any other token may not.
-\* boolean (RFC 6020 9.5: lexical values "true" and "false") only types key leaves: a third value space,
-\* so that the keys of a list with three keys can all be told apart by one token each.
-BaseType(t) == CASE t = "tstring" -> "string" [] t = "tint8" -> "int8" [] t = "tempty" -> "empty" [] OTHER -> t
+\* boolean (RFC 6020 9.5: lexical values "true" and "false"): a third value space, so that the keys of a
+\* list with three keys can all be told apart by one token each.  enum = enumeration { enum on; enum off; }
+\* (9.6: the assigned names are the lexical values); union = union { type int8; type boolean; } (9.12: a
+\* value matches the union iff it matches one member type).  Path validation (C17) crosses every one of
+\* these types with both node kinds that carry a value (leaf, leaf-list) and with key leaves.
+BaseType(t) == CASE t = "tstring" -> "string" [] t = "tint8" -> "int8" [] t = "tempty" -> "empty"
+                 [] t = "tbool" -> "boolean" [] t = "tenum" -> "enum" [] t = "tunion" -> "union" [] OTHER -> t
 IsEmptyType(t) == BaseType(t) = "empty"
 IntToks == {"5", "7", "-3"}
 TypeAccepts(t, v) ==
@@ -80,5 +85,7 @@ TypeAccepts(t, v) ==
     [] BaseType(t) = "int8"   -> v \in IntToks
     [] BaseType(t) = "empty"  -> v = ""
     [] BaseType(t) = "boolean" -> v \in {"true", "false"}
+    [] BaseType(t) = "enum"    -> v \in {"on", "off"}
+    [] BaseType(t) = "union"   -> v \in IntToks \cup {"true", "false"}
     [] OTHER                  -> FALSE
 =============================================================================
